@@ -478,10 +478,13 @@ impl Ctx {
         Rng::new(self.seed.wrapping_mul(1_000_003).wrapping_add(self.worker as u64).wrapping_mul(7919).wrapping_add(salt))
     }
     pub fn scale(&self, quick: u64, thorough: u64) -> u64 {
-        match self.tier {
+        let n = match self.tier {
             Tier::Quick => quick,
             Tier::Thorough => thorough,
-        }
+        };
+        // VERIF_SCALE_DIV shrinks generated workloads (used for the ext4 slice of the thorough tier)
+        let div = std::env::var("VERIF_SCALE_DIV").ok().and_then(|s| s.parse::<u64>().ok()).unwrap_or(1).max(1);
+        (n / div).max(1)
     }
     /// this worker's share of `total` units of work
     pub fn share(&self, total: u64) -> u64 {
